@@ -150,7 +150,7 @@ int define_external_variables(
     if (!equal_sign)
     {
       fprintf(stderr, "error: wrong syntax for `-d` option.\n");
-      return ERROR_SUCCESS;
+      return ERROR_INVALID_ARGUMENT;
     }
 
     // Replace the equal sign with null character to split the external
